@@ -160,6 +160,35 @@ fn versions_in_one_multi_block_batch(sim: &mut HybSim, index_size: usize, key: u
     })
 }
 
+/// Cases built around the reinsertion clause: no shedding (large flush buffer), the reinsertion keys are written and
+/// acknowledged first, then the device is wrapped by bursts with verification points in between.
+pub fn rcase_reinsert_focus() -> impl Strategy<Value = RCase> {
+    (rcase(), any::<bool>(), prop::collection::vec((2u8..=12, 1u8..=2, any::<bool>()), 3..=8)).prop_map(|(mut case, big, bursts)| {
+        case.buffer_blocks = 0;
+        case.reinsert = if big { vec![1u8, 5] } else { vec![0u8, 2, 9] };
+        let keys = effective_reinsert(&case);
+        let mut ops: Vec<ROp> = keys.iter().map(|k| ROp::Insert { k: *k, pages: 1 }).collect();
+        ops.push(ROp::DrainVerify);
+        // keep the generated middle part, without writes to the reinsertion keys (their flushed version must stay the
+        // current one) and without deletes of them
+        for op in std::mem::take(&mut case.ops) {
+            match &op {
+                ROp::Insert { k, .. } | ROp::Delete { k } if keys.contains(k) => {}
+                _ => ops.push(op),
+            }
+        }
+        for (n, pages, verify) in bursts {
+            ops.push(ROp::Burst { n, pages });
+            if verify {
+                ops.push(ROp::DrainVerify);
+            }
+        }
+        ops.push(ROp::DrainVerify);
+        case.ops = ops;
+        case
+    })
+}
+
 fn cfg_of(case: &RCase) -> HybCfg {
     let block_size = case.block_kib * 1024;
     HybCfg {
@@ -558,5 +587,6 @@ pub fn check_c09(tier: Tier, seed: u64) -> i32 {
     let cases = tier.pick(60_000, 1_500_000);
     check.max_shrink_iters = 400;
     check.run_random("random", cases, rcase, exec_c09);
+    check.run_random("reinsert-focus", cases / 4, rcase_reinsert_focus, exec_c09);
     check.finish()
 }
